@@ -443,7 +443,7 @@ class History:
             if not self.check_i1(e, label, plan, pre if e is ent else None):
                 cont = False
         for e in self.pool:
-            self.check_registry(e, label)
+            self.check_registry(e, label, pre if e is ent else None)
         if inv_fired and cont:
             raise RuntimeError(f"class invariant fired but the checker sees no cycle ({label})")
         # new object
@@ -502,7 +502,30 @@ class History:
         return True
 
     # ---------------------------------------------------------------- CPD registry (registration / replacement)
-    def check_registry(self, e, label):
+    @staticmethod
+    def wrong_cpd_removed(pre, post, var):
+        """remove_cpds(node) looks the node's CPD up and then calls list.remove, which matches by factor
+        EQUALITY (same variable set and values, any axis order, any owner): an equal table of another node that
+        sits earlier in the list is removed instead and the node's own CPD stays."""
+        if pre is None:
+            return False
+        own = [j for j, t in enumerate(pre.tables) if t.get("var") == var and "bad" not in t]
+        if not own:
+            return False
+        j = own[0]
+        tj = pre.tables[j]
+        a = named(tj["vars"], tj["sn"], tj["card"], tj["vals"])
+        post_fps = list(post.fps)
+        for ti in pre.tables[:j]:
+            if "bad" in ti or ti.get("var") == var or {repr(v) for v in ti["vars"]} != {repr(v) for v in tj["vars"]}:
+                continue
+            b = named(ti["vars"], ti["sn"], ti["card"], ti["vals"])
+            if set(a) == set(b) and all(abs(a[k] - b[k]) <= 1e-8 for k in a) \
+                    and ti["fp"] not in post_fps and tj["fp"] in post_fps:
+                return True
+        return False
+
+    def check_registry(self, e, label, pre=None):
         """Per node, the CPDs registered on a BayesianNetwork: add_cpds replaces the CPD of a variable, and
         remove_node drops it, so at no time may a node own two CPDs or a CPD belong to a non-node.
         (DynamicBayesianNetwork.add_cpds appends by design; its leftovers are judged by I3 only.)"""
@@ -526,7 +549,10 @@ class History:
             if var not in e.snap.nodeset and (e.serial, "orphan", rv_) not in flagged:
                 flagged.add((e.serial, "orphan", rv_))
                 bad = True
-                ctx.violation("c15:orphan-cpd", f"{label}: object #{e.serial} holds a CPD for {var!r}, which is not a "
+                k_ = "c15:orphan-cpd"
+                if self.wrong_cpd_removed(pre, e.snap, var):
+                    k_ = "c15:remove-cpds-matches-by-equality"
+                ctx.violation(k_, f"{label}: object #{e.serial} holds a CPD for {var!r}, which is not a "
                               f"node of the graph")
         if not bad:
             ctx.ok()
@@ -633,7 +659,10 @@ class History:
             checked += 1
             now = post_by_var.get(rv_, [])
             if var not in post.nodeset:
-                ctx.expect(not now, key("c15:i3-orphan-cpd"),
+                k_ = key("c15:i3-orphan-cpd")
+                if now and cls == "BayesianNetwork" and self.wrong_cpd_removed(pre, post, var):
+                    k_ = "c15:remove-cpds-matches-by-equality"
+                ctx.expect(not now, k_,
                            f"{label}: node {var!r} left the graph but its CPD is still attached")
                 continue
             if len(now) != 1:
